@@ -68,17 +68,25 @@ func snippetForBlock(blockType string, block *schema.BlockSchema, prefillRequire
 	if prefillRequiredFields {
 		labels := ""
 
-		depKey := false
+		depKeys := 0
 		for _, l := range block.Labels {
 			if l.IsDepKey {
-				depKey = true
+				depKeys++
 			}
 		}
 
-		if depKey {
+		if depKeys > 0 {
+			// the last dependency key label is the final tab stop,
+			// any preceding ones are visited first
+			placeholder := 1
 			for _, l := range block.Labels {
 				if l.IsDepKey {
-					labels += ` "${0}"`
+					if placeholder == depKeys {
+						labels += ` "${0}"`
+					} else {
+						labels += fmt.Sprintf(` "${%d}"`, placeholder)
+					}
+					placeholder++
 				} else {
 					labels += fmt.Sprintf(` "%s"`, l.Name)
 				}
